@@ -25,6 +25,8 @@ type posTarget interface {
 	Delete(pos int) (string, error)
 	Insert(pos int, tag string) error
 	Size() int
+	DeleteMany(pos, n int) ([]string, error)
+	UpdateMany(pos int, tags ...string) ([]string, error) // returns the replaced values
 }
 
 type listTarget struct{ l orda.ListInTx }
@@ -38,6 +40,67 @@ func (t listTarget) Delete(pos int) (string, error) {
 }
 func (t listTarget) Insert(pos int, tag string) error { _, err := t.l.Insert(pos, tag); return err }
 func (t listTarget) Size() int                        { return t.l.Size() }
+func (t listTarget) DeleteMany(pos, n int) ([]string, error) {
+	vs, err := t.l.DeleteMany(pos, n)
+	if err != nil {
+		return nil, err
+	}
+	return strs(vs), nil
+}
+func (t listTarget) UpdateMany(pos int, tags ...string) ([]string, error) {
+	vals := make([]interface{}, len(tags))
+	for i, tg := range tags {
+		vals[i] = tg
+	}
+	vs, err := t.l.Update(pos, vals...)
+	if err != nil {
+		return nil, err
+	}
+	return strs(vs), nil
+}
+
+func strs(vs []interface{}) []string {
+	out := make([]string, 0, len(vs))
+	for _, v := range vs {
+		out = append(out, fmt.Sprint(v))
+	}
+	return out
+}
+
+func (t arrTarget) DeleteMany(pos, n int) ([]string, error) {
+	a, err := t.arr()
+	if err != nil {
+		return nil, err
+	}
+	ds, err2 := a.DeleteManyInArray(pos, n)
+	if err2 != nil {
+		return nil, err2
+	}
+	var out []string
+	for _, d := range ds {
+		out = append(out, fmt.Sprint(d.GetValue()))
+	}
+	return out, nil
+}
+func (t arrTarget) UpdateMany(pos int, tags ...string) ([]string, error) {
+	a, err := t.arr()
+	if err != nil {
+		return nil, err
+	}
+	vals := make([]interface{}, len(tags))
+	for i, tg := range tags {
+		vals[i] = tg
+	}
+	ds, err2 := a.UpdateManyInArray(pos, vals...)
+	if err2 != nil {
+		return nil, err2
+	}
+	var out []string
+	for _, d := range ds {
+		out = append(out, fmt.Sprint(d.GetValue()))
+	}
+	return out, nil
+}
 
 type arrTarget struct{ d orda.DocumentInTx }
 
@@ -163,8 +226,35 @@ func init() {
 				mu.Unlock()
 				return true
 			}
+			delMany := func(l posTarget, pos, n int) bool {
+				vs, err := l.DeleteMany(pos, n)
+				if err != nil {
+					return false
+				}
+				mu.Lock()
+				deleted = append(deleted, vs...)
+				okOps++
+				mu.Unlock()
+				return true
+			}
+			updMany := func(l posTarget, pos int, tags ...string) bool {
+				olds, err := l.UpdateMany(pos, tags...)
+				if err != nil {
+					return false
+				}
+				mu.Lock()
+				deleted = append(deleted, olds...) // the replaced values are gone, the new ones are there
+				inserted = append(inserted, tags...)
+				okOps++
+				mu.Unlock()
+				return true
+			}
 			var acts []activity
-			acts = append(acts, activity{name: "t0-call", f: guard("t0", func() { del(top, 2) })})
+			if a.Many {
+				acts = append(acts, activity{name: "t0-call", f: guard("t0", func() { delMany(top, 1, 2) })})
+			} else {
+				acts = append(acts, activity{name: "t0-call", f: guard("t0", func() { del(top, 2) })})
+			}
 			acts = append(acts, activity{name: "t1-tx", f: guard("t1", func() {
 				body := func(l posTarget) error {
 					n0 := l.Size()
@@ -191,7 +281,11 @@ func init() {
 			})})
 			if a.Threads >= 3 {
 				acts = append(acts, activity{name: "t2-calls", f: guard("t2", func() {
-					del(top, 1)
+					if a.Many {
+						updMany(top, 1, "t2u1", "t2u2")
+					} else {
+						del(top, 1)
+					}
 					ins(top, 3, "t2b")
 				})})
 			}
